@@ -197,6 +197,7 @@ type FuncContract struct {
 	LoopTypeInvs []*Clause
 	ParamNames []string
 	InvParams []string
+	Named     bool            // ghost function kept as a named SMT function (clean quantifier triggers)
 	MapOrder  []string        // properties the map-iteration order obligations belong to
 	Reveal    map[string]bool // tags of opaque callee ensures this function's proofs use
 }
@@ -391,7 +392,7 @@ func representable(t types.Type, depth int) bool {
 
 var clauseKeywords = map[string]bool{"func": true, "requires": true, "ensures": true, "loop": true, "arith": true,
 	"safety": true, "inline": true, "pure": true, "trusted": true, "skip": true, "ghost": true, "lemma": true,
-	"modifies": true, "note": true, "opaque": true, "sweep": true, "typeinv": true, "noinv": true, "valueinv": true, "params": true, "noloopinv": true, "define": true, "reveal": true, "maporder": true}
+	"modifies": true, "note": true, "opaque": true, "sweep": true, "typeinv": true, "noinv": true, "valueinv": true, "params": true, "noloopinv": true, "define": true, "reveal": true, "maporder": true, "named": true}
 
 func (p *Program) parseContracts(pk *packages.Package) error {
 	for i, f := range pk.Syntax {
@@ -609,6 +610,8 @@ func (p *Program) parseContractFile(pkgName string, f *ast.File, fname string, e
 					cur.Safety = append(cur.Safety, w)
 					cur.Props[w] = true
 				}
+			case "named":
+				cur.Named = true
 			case "noinv":
 				cur.NoInv = true
 			case "reveal":
@@ -734,25 +737,7 @@ func findLoops(fn *ssa.Function) []*loopInfo {
 	sort.Slice(out, func(i, j int) bool { return out[i].header.Index < out[j].header.Index })
 	for i, li := range out {
 		li.ord = i + 1
-		li.ext = map[*ssa.BasicBlock]bool{}
-		for changed := true; changed; {
-			changed = false
-			for _, b := range fn.Blocks {
-				if li.body[b] || li.ext[b] || len(b.Preds) == 0 || strings.HasSuffix(b.Comment, ".done") {
-					continue
-				}
-				all := true
-				for _, pr := range b.Preds {
-					if !li.body[pr] && !li.ext[pr] {
-						all = false
-					}
-				}
-				if all {
-					li.ext[b] = true
-					changed = true
-				}
-			}
-		}
+		li.ext = nil
 	}
 	return out
 }
